@@ -1178,7 +1178,10 @@ type fetchLiteralReader struct {
 
 func (lit *fetchLiteralReader) Read(b []byte) (int, error) {
 	n, err := lit.LiteralReader.Read(b)
-	if err == io.EOF && lit.ch != nil {
+	// Any error ends the literal for the consumer, not just io.EOF: the
+	// decoder goroutine must not keep waiting for a literal that can no
+	// longer be read (connection error, timeout, closed connection).
+	if err != nil && lit.ch != nil {
 		close(lit.ch)
 		lit.ch = nil
 	}
